@@ -1,18 +1,35 @@
 (* C02 (minor servos) — STATUS queries are answered in every reachable state.  Statements only. *)
 From DS Require Import Base.Prelude Model.MsvTypes Model.MsvModel Model.MsvFloat Gen.MsvTables.
-From DS Require Import Proofs.MsvProofs Proofs.MsvParts Proofs.MsvShape Proofs.MsvPartsGen.
+From DS Require Import Proofs.MsvProofs Proofs.MsvKin Proofs.MsvGen Proofs.MsvParts Proofs.MsvShape Proofs.MsvPartsGen.
+From Coq Require Import Reals.
+
+(* The shape invariant: every per-axis list of every servo has DOF entries AND a loaded spline table
+   (pt_table non-empty) comes with a non-empty list of trajectory times — what get_status indexes in
+   operative mode 50 (`self.trajectory[0][0]`).  The trajectory bookkeeping of _programTrack is part of
+   the model (Model/MsvModel.v: pt_stage1 / pt_finish).
+
+   Hypotheses law0 / law5 are the two arithmetic facts the time checks of _programTrack rely on:
+     law0 (pt_law):  start >= now  ->  start + 0 * gap >= now
+     law5:           p >= now      ->  p >= now - 5
+   both proved for binary64 (Flocq: rounding is monotone) and for the reals, see the last theorems. *)
 
 (* every state reachable from the initial one by ANY history (bytes — accepted, refused, garbage —,
-   clock steps, refreshes) satisfies the shape invariant ... *)
-Theorem C02_ms_reachable_shape : forall T (ops : numops T) orc (f : Z -> T) tk e0 evs,
+   clock steps, refreshes, any oracle values) satisfies the invariant ... *)
+Theorem C02_ms_reachable_shape : forall T (ops : numops T) orc (f : Z -> T) tk,
+  pt_law ops (gen_cfg f tk) ->
+  (forall p now, nlt ops p now = false -> nlt ops p (nsub ops now (nofZ ops 5)) = false) ->
+  forall e0 evs,
   shape_inv (gen_cfg f tk) (snd (fst (run ops orc (gen_cfg f tk) (e0, init_sys ops (gen_cfg f tk)) evs))).
 Proof. exact @reachable_shape. Qed.
 Print Assumptions C02_ms_reachable_shape.
 
 (* ... and in every such state with an idle parser (C03_ms_resync) each of the eight queries
-   STATUS=<servo> gets True for every byte but the last and exactly one GOOD reply on the last,
-   leaving the parser idle and the invariant intact (random.uniform delivering its draws) *)
-Theorem C02_ms_status_servo : forall T (ops : numops T) orc (f : Z -> T) tk s e r,
+   STATUS=<servo> gets True for every byte but the last and exactly one GOOD reply on the last — in
+   every operative mode, 50 included: get_status cannot raise — leaving the parser idle and the
+   invariant intact (random.uniform delivering its draws) *)
+Theorem C02_ms_status_servo : forall T (ops : numops T) orc (f : Z -> T) tk,
+  (forall p now, nlt ops p now = false -> nlt ops p (nsub ops now (nofZ ops 5)) = false) ->
+  forall s e r,
   shape_inv (gen_cfg f tk) s -> s_msg s = [] -> In r g_servos -> (6 <= length (e_draws e))%nat ->
   exists s' body,
     feed ops orc (gen_cfg f tk) s e (status_query (sr_name r) ++ [13; 10]) =
@@ -29,6 +46,32 @@ Theorem C02_ms_status_general : forall T (ops : numops T) orc (f : Z -> T) tk s 
       (s, repeat OTrue (length status_general + 1) ++ [OReply (good orc (gen_cfg f tk) e ++ body ++ crlf)]).
 Proof. exact @status_general_query_answered. Qed.
 Print Assumptions C02_ms_status_general.
+
+(* the iteration of the update thread (System._update) never raises in a state with the invariant *)
+Theorem C02_ms_update_never_raises : forall T (ops : numops T) (f : Z -> T) tk,
+  (forall p now, nlt ops p now = false -> nlt ops p (nsub ops now (nofZ ops 5)) = false) ->
+  forall s e spls, shape_inv (gen_cfg f tk) s -> snd (refresh ops (gen_cfg f tk) e spls s) = false.
+Proof. exact @update_never_raises. Qed.
+Print Assumptions C02_ms_update_never_raises.
+
+(* the arithmetic laws hold for the bit-exact binary64 instance and for the reals *)
+Theorem C02_ms_law0_binary64 : forall tk, pt_law fops (fcfg tk).
+Proof. exact f_pt_law. Qed.
+Print Assumptions C02_ms_law0_binary64.
+Theorem C02_ms_law5_binary64 : forall p now : F,
+  nlt fops p now = false -> nlt fops p (nsub fops now (nofZ fops 5)) = false.
+Proof. exact f_law5. Qed.
+Print Assumptions C02_ms_law5_binary64.
+Theorem C02_ms_law5_real : forall p now : R,
+  nlt rops p now = false -> nlt rops p (nsub rops now (nofZ rops 5)) = false.
+Proof. exact r_law5. Qed.
+Print Assumptions C02_ms_law5_real.
+
+(* hence, for the binary64 model of the shipped simulator, without hypotheses *)
+Theorem C02_ms_reachable_shape_binary64 : forall orc tk e0 evs,
+  shape_inv (fcfg tk) (snd (fst (run fops orc (fcfg tk) (e0, init_sys fops (fcfg tk)) evs))).
+Proof. intros orc tk. exact (reachable_shape fops orc f_of_bits tk (f_pt_law tk) f_law5). Qed.
+Print Assumptions C02_ms_reachable_shape_binary64.
 
 Example C02_ms_ex : existsb (fun r => zlist_eqb (sr_name r) [71; 70; 82]) g_servos = true.
 Proof. reflexivity. Qed.
